@@ -418,6 +418,32 @@ func streamHelpers(seed uint64, n int, driver string) (*Summary, error) {
 			}
 			if got != want {
 				sum.addMismatch("C16", Mismatch{Case: lines[c], Impl: got, Model: want, What: "schema objects are not what the set semantics says (" + what + ")"})
+				// the same PostTransforms in ANOTHER ORDER than they were declared in (C12)
+				if usePosts {
+					if g, err1 := sx.Parse(got); err1 == nil {
+						if w, err2 := sx.Parse(want); err2 == nil && len(g.List) == len(w.List) {
+							for k := range g.List {
+								if len(g.List[k].List) != 2 || len(w.List[k].List) != 2 {
+									continue
+								}
+								gs, ws := g.List[k].List[1].String(), w.List[k].List[1].String()
+								gl, wl := []string{}, []string{}
+								for _, x := range g.List[k].List[1].List {
+									gl = append(gl, x.String())
+								}
+								for _, x := range w.List[k].List[1].List {
+									wl = append(wl, x.String())
+								}
+								sort.Strings(gl)
+								sort.Strings(wl)
+								if gs != ws && strings.Join(gl, " ") == strings.Join(wl, " ") {
+									sum.addMismatch("C12", Mismatch{Case: lines[c], Impl: got, Model: want, What: fmt.Sprintf("schema object %d runs its PostTransforms in another order than they were declared in (%s)", k, what)})
+									break
+								}
+							}
+						}
+					}
+				}
 				// a schema object that runs FEWER field schemas or tests than it declares skips constraints (C01)
 				if g, err1 := sx.Parse(got); err1 == nil {
 					if w, err2 := sx.Parse(want); err2 == nil && len(g.List) == len(w.List) {
